@@ -201,7 +201,9 @@ func (c *MapCodec) readMapEntry(mp, k unsafe.Pointer, data []byte) (int, error) 
 	}
 
 	if index == 1 {
-		// Key is present - read it
+		// Key is present - read it. k is re-used between entries and calls so
+		// clear it first: fields omitted from this key must read as zero
+		typedmemclr(unpackEFace(c.rtype.Key()).data, k)
 		n, err := c.keyCodec.Read(data[offset:fieldEnd], k, wt)
 		if err != nil {
 			return 0, fmt.Errorf("failed reading key field of %s. %w", c.rtype.Name(), err)
